@@ -36,6 +36,17 @@ Qed.
 Theorem reachable_inv c s : Reachable c s -> Inv s.
 Proof. intros [tr H]. eapply Inv_run; [apply Inv_init|exact H]. Qed.
 
+Lemma run_snoc c tr l s : run c s (tr ++ [l]) =
+  match run c s tr with Some s1 => step c s1 l | None => None end.
+Proof.
+  revert s; induction tr as [|l0 tr IH]; intros s; cbn [run app].
+  - destruct (step c s l); reflexivity.
+  - destruct (step c s l0); [apply IH|reflexivity].
+Qed.
+
+Lemma reachable_step c s l s' : Reachable c s -> step c s l = Some s' -> Reachable c s'.
+Proof. intros [tr H] Hs. exists (tr ++ [l]). rewrite run_snoc, H. exact Hs. Qed.
+
 (* ---- immediate consequences *)
 Definition at_rest (s : state) : Prop := all_done (tasks s) = true.
 
